@@ -196,6 +196,24 @@ def run(tier):
     from . import bulkops
     rep.floor("bulk operations compared", bulkops.check(rep, F), 3)
     rep.floor("bulk operations whose returned count is classified", bulkops.count_unit(rep, F), 2)
+    # the back-ends are given the characters as they are: a constructor stores its source argument itself (no trimming, no byte order
+    # mark dropped, no normalisation) - whatever is done to the text before the Input methods see it is done by one back-end only
+    ncon = 0
+    for adt_key in (STRINPUT, BUFINPUT):
+        adt = F.adts.get(adt_key)
+        if adt is None:
+            continue
+        for k, f in sorted(F.fns.items()):
+            if f.d.get("impl_adt") != adt_key or f.d.get("impl_trait") or "::{closure" in k:
+                continue
+            for bi, si, st in cfg.stmts(f):
+                if st["k"] == "assign" and st["rv"]["k"] == "agg" and st["rv"].get("adt") == adt_key:
+                    ncon += 1
+                    src = cfg.expr_operand(f, st["rv"]["ops"][0], 8)
+                    rep.check(src[0] == "param", "back-end-keeps-its-source", short(k), "%s builds the back-end from %s instead of its source argument as given: the "
+                              "characters this back-end delivers differ from what the others deliver for the same text" % (short(k), cfg.expr_str(src)[:120]),
+                              site=site(f, st["sp"]))
+    rep.floor("constructions of the input back-ends", ncon, 2)
     # (iii') multi-character tests (document markers, "can a plain scalar go on here"): override vs provided body on every text of up to
     # four characters over the characters either body distinguishes (plus a letter and a two-byte character), by constant folding
     LETTERS = [0x2D, 0x2E, 0x20, 0x09, 0x0A, 0x0D, 0x3A, 0x2C, 0x5B, 0x7D, 0x61, 0xE9]
